@@ -67,6 +67,9 @@ struct sCS101_FileServer
 
     int maxSegmentSize; /* max. size of segment payload data */
 
+    int expectedFileLength; /* file sent by the master: length announced in FILE READY */
+    int receivedFileLength; /* file sent by the master: octets of the sections acknowledged so far */
+
     uint64_t timeout;
 
     CS101_IFileProvider selectedFile;
@@ -321,6 +324,8 @@ CS101_FileServer_handleAsdu(void* parameter, IMasterConnection connection,  CS10
                     self->oa = oa;
                     self->nof = FileReady_getNOF(fileReady);
                     self->fileChecksum = 0;
+                    self->expectedFileLength = (int) FileReady_getLengthOfFile(fileReady);
+                    self->receivedFileLength = 0;
 
                     sendCallFile(self, connection, oa);
 
@@ -367,6 +372,7 @@ CS101_FileServer_handleAsdu(void* parameter, IMasterConnection connection,  CS10
 
                 self->currentSectionNumber = SectionReady_getNameOfSection(sectionReady);
                 self->currentSectionOffset = 0;
+                self->sectionChecksum = 0;
                 self->currentSectionSize = SectionReady_getLengthOfSection(sectionReady);
 
                 /* send call section */
@@ -395,6 +401,7 @@ CS101_FileServer_handleAsdu(void* parameter, IMasterConnection connection,  CS10
                 }
 
                 self->currentSectionOffset += los;
+                self->sectionChecksum += calculateChecksum(FileSegment_getSegmentData(segment), los);
 
                 self->lastSendTime = Hal_getMonotonicTimeInMs();
             }
@@ -418,7 +425,19 @@ CS101_FileServer_handleAsdu(void* parameter, IMasterConnection connection,  CS10
                     {
                         DEBUG_PRINT("Send segment ACK for NoS=%i\n", FileLastSegmentOrSection_getNameOfSection(lastSection));
 
-                        sendFileAck(self, connection, oa, FileLastSegmentOrSection_getNameOfSection(lastSection), 3 /* POS_ACK_SECTION */);
+                        /* acknowledge the section only when it arrived completely and unchanged */
+                        if ((self->currentSectionOffset == self->currentSectionSize) &&
+                                (FileLastSegmentOrSection_getCHS(lastSection) == self->sectionChecksum))
+                        {
+                            self->receivedFileLength += self->currentSectionSize;
+                            self->fileChecksum += self->sectionChecksum;
+
+                            sendFileAck(self, connection, oa, FileLastSegmentOrSection_getNameOfSection(lastSection), 3 /* POS_ACK_SECTION */);
+                        }
+                        else
+                        {
+                            sendFileAck(self, connection, oa, FileLastSegmentOrSection_getNameOfSection(lastSection), 4 /* NEG_ACK_SECTION */);
+                        }
 
                         self->lastSendTime = Hal_getMonotonicTimeInMs();
                         self->state = WAITING_FOR_SECTION_READY;
@@ -443,15 +462,21 @@ CS101_FileServer_handleAsdu(void* parameter, IMasterConnection connection,  CS10
                 {
                     if (lsq == 1 /* FILE_TRANSFER_WITHOUT_DEACT */)
                     {
+                        /* the transfer is successful only when all announced octets arrived unchanged */
+                        bool complete = (self->receivedFileLength == self->expectedFileLength) &&
+                                (FileLastSegmentOrSection_getCHS(lastSection) == self->fileChecksum);
+
                         DEBUG_PRINT("Send file ACK\n");
 
-                        sendFileAck(self, connection, oa, FileLastSegmentOrSection_getNameOfSection(lastSection), 1 /* POS_ACK_FILE */);
+                        sendFileAck(self, connection, oa, FileLastSegmentOrSection_getNameOfSection(lastSection),
+                                complete ? 1 /* POS_ACK_FILE */ : 2 /* NEG_ACK_FILE */);
 
                         self->lastSendTime = Hal_getMonotonicTimeInMs();
 
                         if (self->fileReceiver)
                         {
-                            self->fileReceiver->finished(self->fileReceiver, CS101_FILE_ERROR_SUCCESS);
+                            self->fileReceiver->finished(self->fileReceiver,
+                                    complete ? CS101_FILE_ERROR_SUCCESS : CS101_FILE_ERROR_PROTOCOL_ERROR);
                         }
 
                         self->state = UNSELECTED_IDLE;
